@@ -1022,3 +1022,47 @@ def root_overwrite(check: Check, repo: Repo, rule: str = "ROOT-OVERWRITE") -> No
                  f"the assigned value may be None ({ty}): an operation type set by a schema extension is overwritten with 'not found'")
     if n < 3:
         raise AnalysisError("build_ast_schema: stores of the conventional root types not found")
+
+
+def or_fold(check: Check, repo: Repo, rule: str = "OR-FOLD") -> None:
+    check.rule(
+        rule,
+        "in extend_schema.py a fold of the form `value = f(node) or value` (a later node overrides only when "
+        "it provides something) runs over extension nodes only; the value of the type's own definition node "
+        "is taken as it is. Folding the definition node through `or` as well turns a falsy but valid "
+        "definition value - @specifiedBy(url: \"\"), an empty description - into None, so the schema no "
+        "longer prints to the text it was built from",
+    )
+    mod = repo.mod("utilities.extend_schema")
+    n = 0
+    for loop in ast.walk(mod.tree):
+        if not isinstance(loop, ast.For) or not isinstance(loop.target, ast.Name):
+            continue
+        var = loop.target.id
+        folds = [
+            s for s in ast.walk(loop)
+            if isinstance(s, ast.Assign) and isinstance(s.value, ast.BoolOp) and isinstance(s.value.op, ast.Or)
+            and len(s.targets) == 1 and unparse(s.value.values[-1]) == unparse(s.targets[0])
+            and any(isinstance(x, ast.Name) and x.id == var for x in ast.walk(s.value.values[0]))
+        ]
+        if not folds:
+            continue
+        fn = enclosing_function(loop)
+        it = loop.iter
+        elems: list[str] = []
+        src = it
+        if isinstance(it, ast.Name) and fn is not None:
+            defs = [s for s in ast.walk(fn) if isinstance(s, (ast.Assign, ast.AnnAssign)) and s.value is not None
+                    and unparse(s.targets[0] if isinstance(s, ast.Assign) else s.target) == it.id and s.lineno < loop.lineno]
+            if defs:
+                src = defs[-1].value
+        if isinstance(src, (ast.List, ast.Tuple)):
+            elems = [unparse(e.value if isinstance(e, ast.Starred) else e) for e in src.elts if not isinstance(e, ast.Starred)]
+        includes_def = any(e in ("ast_node", "node", "def_", "type_node") or e.endswith(".ast_node") for e in elems)
+        for f in folds:
+            n += 1
+            check.ob(rule, f, f"{qualname_of(f)}: `{node_text(f, 70)}` over `{unparse(it)}`", not includes_def,
+                     "folds extension nodes only" if not includes_def else
+                     f"the loop also runs over the definition node ({elems}): its own falsy value is replaced by the fallback")
+    if n < 1:
+        raise AnalysisError("OR-FOLD: no `x = f(node) or x` fold found in extend_schema.py")
